@@ -141,18 +141,28 @@ def analyze(ctx, rules):
                 continue
             # is the element that was taken used at all?  (`it.next();` / `let _ = it.next();` / `if it.next().is_some() {}` throw it away)
             dl = t["dest"]["l"]
+            alias = {dl}            # the result and its plain copies
+            grew = True
+            while grew:
+                grew = False
+                for b2 in fn.reachable():
+                    for st in fn.blocks[b2]["stmts"]:
+                        if st["k"] == "assign" and not st["p"]["pj"] and st["rv"]["k"] == "use" and st["rv"]["op"].get("k") in ("copy", "move") \
+                                and st["rv"]["op"]["p"]["l"] in alias and not st["rv"]["op"]["p"]["pj"] and st["p"]["l"] not in alias:
+                            alias.add(st["p"]["l"])
+                            grew = True
             used = False
             for b2 in fn.reachable():
                 for st in fn.blocks[b2]["stmts"]:
                     if st["k"] != "assign":
                         continue
                     for pl in M.rvalue_places(st["rv"]):
-                        if pl["l"] == dl and any(e_["k"] in ("downcast", "field") for e_ in pl["pj"]):
+                        if pl["l"] in alias and any(e_["k"] in ("downcast", "field") for e_ in pl["pj"]):
                             used = True
                 t4 = fn.term(b2)
                 if t4["k"] == "call" and b2 != bb:
                     for a_ in t4["args"]:
-                        if a_.get("k") in ("copy", "move") and a_["p"]["l"] == dl and not re.search(r"Option::<.*>::(is_some|is_none)$|mem::drop", M.call_name(t4)):
+                        if a_.get("k") in ("copy", "move") and a_["p"]["l"] in alias and not re.search(r"Option::<.*>::(is_some|is_none)$|mem::drop", M.call_name(t4)):
                             used = True
             kind = kind if used else kind + " (result discarded)"
             # advancing a *copy* of an iterator does not take anything away from the original
